@@ -8,6 +8,7 @@ import (
 	"fmt"
 	"math/rand"
 	"os"
+	"path/filepath"
 	"sort"
 	"strings"
 
@@ -22,6 +23,7 @@ type profile struct {
 	sorts                                          []string
 	pcs                                            []int
 	finale                                         bool // complete the exchange at the end (C01)
+	pWide                                          float64 // scripted prefix: many single-entry writers + one long chain merged into one log
 }
 
 var baseProfile = profile{name: "base", minReps: 2, maxReps: 4, minOps: 8, maxOps: 30,
@@ -64,6 +66,30 @@ func newGen(rng *rand.Rand, p profile) func(h *histRun, i int) *hop {
 	if rng.Float64() < p.pEmptyRep {
 		g.setup = append(g.setup, hop{Kind: "new", LogID: "L", Ident: pick(rng, identNames), Sort: g.sort})
 	}
+	if rng.Float64() < p.pWide {
+		// wide, unbalanced fork: replica 0 gets a long chain, k others one entry each, a collector
+		// joins them all and appends with a small pointer count (more heads than pointers)
+		g.setup = nil
+		k := 4 + rng.Intn(6)
+		g.nReps = k + 2
+		for r := 0; r < g.nReps; r++ {
+			g.setup = append(g.setup, hop{Kind: "new", LogID: "L", Ident: identNames[r%len(identNames)], Sort: g.sort})
+		}
+		for n, ln := 0, 6+rng.Intn(10); n < ln; n++ {
+			g.setup = append(g.setup, hop{Kind: "append", R: 0, Payload: fmt.Sprintf("c%d", n), PC: pick(rng, p.pcs)})
+		}
+		for r := 1; r <= k; r++ {
+			g.setup = append(g.setup, hop{Kind: "append", R: r, Payload: fmt.Sprintf("w%d", r), PC: 1})
+		}
+		order := rng.Perm(k + 1)
+		for _, r := range order {
+			g.setup = append(g.setup, hop{Kind: "join", R: k + 1, Src: r, Size: -1})
+		}
+		for n := 0; n < 2; n++ {
+			g.setup = append(g.setup, hop{Kind: "append", R: k + 1, Payload: fmt.Sprintf("x%d", n), PC: []int{0, 1, 2, 3, 4}[rng.Intn(5)]})
+		}
+		g.nOps = rng.Intn(8)
+	}
 	return g.next
 }
 
@@ -78,7 +104,7 @@ func (g *genState) next(h *histRun, i int) *hop {
 		x := rng.Float64()
 		// the optional "empty" replica (last one, when present with log id L) is never appended to
 		appendable := g.nReps
-		if g.setup[len(g.setup)-1].LogID == "M" && len(g.setup) > g.nReps {
+		if nr > g.nReps && h.w.reps[g.nReps].logID == "M" {
 			appendable = g.nReps + 1 // the foreign-id replica may be appended to
 		}
 		switch {
@@ -440,11 +466,17 @@ func loadReplayOps(path string) ([]hop, error) {
 // corpusFor loads minimised past failures / hand-written histories that run before the random ones
 func corpusFor(prop string) [][]hop {
 	var out [][]hop
-	for _, dir := range []string{"../corpus/" + prop, "corpus/" + prop} {
+	seen := map[string]bool{}
+	exe, _ := os.Executable()
+	for _, dir := range []string{filepath.Join(filepath.Dir(exe), "..", "corpus", prop), "../corpus/" + prop, "corpus/" + prop} {
 		files, _ := os.ReadDir(dir)
 		for _, f := range files {
 			if strings.HasSuffix(f.Name(), ".json") {
+				if seen[f.Name()] {
+					continue
+				}
 				if ops, err := loadReplayOps(dir + "/" + f.Name()); err == nil && len(ops) > 0 {
+					seen[f.Name()] = true
 					out = append(out, ops)
 				}
 			}
@@ -455,13 +487,22 @@ func corpusFor(prop string) [][]hop {
 
 func init() {
 	p := baseProfile
-	register("C02", runLogProp(logRunCfg{prop: "C02", profile: p, nQuick: 150, nThorough: 3000, perShard: 12}))
+	p2 := p
+	p2.name = "base+acl"
+	p2.pDenyLog = 0.3
+	register("C02", runLogProp(logRunCfg{prop: "C02", profile: p2, nQuick: 150, nThorough: 3000, perShard: 12}))
+	p6 := p
+	p6.name = "acl"
+	p6.pDenyLog = 0.5
+	p6.pSetID = 0.06
+	register("C06", runLogProp(logRunCfg{prop: "C06", profile: p6, nQuick: 150, nThorough: 3000, perShard: 12}))
 	register("C03", runLogProp(logRunCfg{prop: "C03", profile: p, nQuick: 150, nThorough: 3000, perShard: 12}))
 	register("C01", runLogProp(logRunCfg{prop: "C01", profile: p, nQuick: 150, nThorough: 3000, perShard: 12}))
 	p4 := p
 	p4.name = "append-heavy"
 	p4.pcs = []int{0, 1, 2, 3, 4, 7, 8, 16, 31, 64, 1000}
 	p4.pSetID = 0.05
+	p4.pWide = 0.3
 	register("C04", runLogProp(logRunCfg{prop: "C04", profile: p4, nQuick: 150, nThorough: 3000, perShard: 12}))
 	register("C05", runLogProp(logRunCfg{prop: "C05", profile: p, nQuick: 150, nThorough: 3000, perShard: 12}))
 	p16 := p
